@@ -14,7 +14,7 @@ RULE = ("one evaluation = one history: up to 6 requests of random kinds (ping, l
         "out-of-order/duplicate/unknown delivery; distinct by (kinds, deliveries) hash")
 ASSUMPTIONS = ["reply shapes are the documented result shapes of vf/catalogue.py with id/from matched to the request",
                "only kinds for which the stack defines a reply entity are issued"]
-REQUIRED = ["twin_requests", "twin_requests_while_first_outstanding", "concurrent_request_runs", "concurrent_requests_ok", "concurrent_yields", "internal:group-keyfetch", "internal_group_ok", "group_keyfetch_partial", "histories", "callbacks_that_raised", "reissued_in_callback", "requests", "deliveries", "predicted_callbacks", "observed_callbacks", "delivery:result", "delivery:error", "delivery:duplicate",
+REQUIRED = ["group_keyfetch_with_known_members", "twin_requests", "twin_requests_while_first_outstanding", "concurrent_request_runs", "concurrent_requests_ok", "concurrent_yields", "internal:group-keyfetch", "internal_group_ok", "group_keyfetch_partial", "histories", "callbacks_that_raised", "reissued_in_callback", "requests", "deliveries", "predicted_callbacks", "observed_callbacks", "delivery:result", "delivery:error", "delivery:duplicate",
             "delivery:unknown-id", "delivery:non-reply", "delivery:foreign", "internal:key-fetch", "internal:key-upload"]
 TIMEOUT = {"quick": 600, "thorough": 7200}
 
@@ -404,7 +404,18 @@ def internal_group_keyfetch(acc, seed, tag):
         m = AxolotlManagerFactory().get_manager("gpeer_%s_%d" % (tag.replace("/", "_"), i), ph)
         m.level_prekeys(force=True)
         peers.append((ph, m, m.load_unsent_prekeys()[0], m.load_latest_signed_prekey(generate=True)))
-    omitted = set(r.sample(range(n), r.randint(0, n - 1)))
+    # some members may be old acquaintances (a pairwise session exists already), but never all of them: the key request is for the rest
+    pre = set(r.sample(range(n), r.randint(0, n - 1))) if r.random() < 0.5 else set()
+    if pre:
+        from axolotl.state.prekeybundle import PreKeyBundle
+        km = kit.profile.axolotl_manager
+        for i in pre:
+            ph, m, pk, spk = peers[i]
+            km.create_session(ph, PreKeyBundle(m.registration_id, 1, pk.getId(), pk.getKeyPair().getPublicKey(), spk.getId(), spk.getKeyPair().getPublicKey(),
+                                               spk.getSignature(), m.identity.getPublicKey()), autotrust=True)
+        acc.count("group_keyfetch_with_known_members")
+    rest_ = [i for i in range(n) if i not in pre]
+    omitted = set(r.sample(rest_, r.randint(0, len(rest_) - 1)))
     gj = "%s-1500000000@g.us" % kit.profile.config.phone
     acc.count("internal:group-keyfetch")
     if omitted:
@@ -435,11 +446,16 @@ def internal_group_keyfetch(acc, seed, tag):
         if len(gets) != 1:
             acc.violation("internal-group-keyfetch-request:%d" % len(gets), "the group info result produced %d key requests" % len(gets), w)
             return
-        result = ("iq", {"id": gets[0][1]["id"], "type": "result", "from": S}, [("list", {}, [user(*p) for i, p in enumerate(peers) if i not in omitted], None)], None)
+        asked = set(u[1]["jid"] for k_ in gets[0][2] if k_[0] == "key" for u in k_[2])
+        want_asked = set("%s@s.whatsapp.net" % p[0] for i, p in enumerate(peers) if i not in pre)
+        if asked != want_asked:
+            acc.violation("internal-group-keyfetch-asked", "keys requested for %s, members without session: %s" % (sorted(asked), sorted(want_asked)), w)
+            return
+        result = ("iq", {"id": gets[0][1]["id"], "type": "result", "from": S}, [("list", {}, [user(*p) for i, p in enumerate(peers) if i not in omitted and i not in pre], None)], None)
         kit.inject(result)
         first = len(msgs())
         if first != 1:
-            acc.violation("internal-group-keyfetch-effect:%d-for-1" % first, "after the key result (%d of %d members keyed) the group message left %d times" % (n - len(omitted), n, first), w)
+            acc.violation("internal-group-keyfetch-effect:%d-for-1" % first, "after the key result (%d of %d members keyed, %d known before) the group message left %d times" % (n - len(omitted), n, len(pre), first), w)
             return
         keyed = set()
 
@@ -450,7 +466,10 @@ def internal_group_keyfetch(acc, seed, tag):
                 walk(ch)
         walk(msgs()[0])
         want = set("%s@s.whatsapp.net" % p[0] for i, p in enumerate(peers) if i not in omitted)
-        if keyed != want:
+        want_new = set("%s@s.whatsapp.net" % p[0] for i, p in enumerate(peers) if i not in omitted and i not in pre)
+        # (members known before may or may not get the sender key with this stanza - the pinned library leaves them to ask for it
+        # with a retry -; the members keyed just now must get it, and nobody without keys may)
+        if not (want_new <= keyed <= want):
             acc.violation("internal-group-keyfetch-recipients", "sender key distributed to %s, members with keys: %s" % (sorted(keyed), sorted(want)), w)
             return
         # replays: the same result again, and the group info result again
